@@ -371,7 +371,8 @@ theorem pure_sim (S : Spec) (hok : realOk S = true) (st : RunSt) (σ : St) (id :
     (hf : S.find? id = some u) (he : u.isEffect = false) (hinv : RInv e σ₀ S st σ)
     (hlen : ¬ st.stack.length < u.inp.length)
     (hargs : (st.stack.take u.inp.length).map (resolve S) = u.inp.map (resolve S) ∨
-             (u.comm = true ∧ (st.stack.take u.inp.length).map (resolve S) = (u.inp.map (resolve S)).reverse))
+             ((u.comm = true ∧ (BinOp.ofName? u.op).any (·.comm) = true) ∧
+               (st.stack.take u.inp.length).map (resolve S) = (u.inp.map (resolve S)).reverse))
     (o : String) (ho : u.out = some o) (pk : Nat) :
     ∃ i σ1, instrOfU u = some i ∧ step e i σ = some σ1 ∧
       RInv e σ₀ S { stack := .var o :: st.stack.drop u.inp.length, done := st.done ++ [id], peak := pk } σ1 := by
@@ -400,14 +401,15 @@ theorem pure_sim (S : Spec) (hok : realOk S = true) (st : RunSt) (σ : St) (id :
   have hboth : (∀ t' ∈ targs, t' ∈ ts) ∧
       pureVal e σ.trace u ((ts.take u.inp.length).map (evc e σ₀ (cOf e σ₀ S st.done))) =
         some (evc e σ₀ (cOf e σ₀ S st.done) t) := by
-    rcases hargs with h | ⟨hcm, h⟩
+    rcases hargs with h | ⟨⟨hcm, hco⟩, h⟩
     · have := htk.1 h
       rw [this, hinv.trace]
       exact ⟨fun t' ht' => List.mem_of_mem_take (this ▸ ht'), hpv.1⟩
     · have hrev := htk.2 h
       have hcomm : u.inp.length = 2 ∧ (BinOp.ofName? u.op).any (·.comm) = true := by
+        refine ⟨?_, hco⟩
         simp only [instrOk, hcm, Bool.not_true, Bool.false_or, Bool.and_eq_true, beq_iff_eq] at hi
-        exact ⟨hi.1.1.1.2.1.1, hi.1.1.1.2.2⟩
+        exact hi.1.1.1.2.1.1
       refine ⟨fun t' ht' => List.mem_of_mem_take (hrev ▸ (List.mem_reverse.2 ht')), ?_⟩
       rw [hrev, hinv.trace]
       have hl2 : targs.length = 2 := by
@@ -475,7 +477,8 @@ theorem eff_sim (S : Spec) (hok : realOk S = true) (st : RunSt) (σ : St) (id : 
     (hf : S.find? id = some u) (he : u.isEffect = true) (hinv : RInv e σ₀ S st σ)
     (hlen : ¬ st.stack.length < u.inp.length)
     (hargs : (st.stack.take u.inp.length).map (resolve S) = u.inp.map (resolve S) ∨
-             (u.comm = true ∧ (st.stack.take u.inp.length).map (resolve S) = (u.inp.map (resolve S)).reverse))
+             ((u.comm = true ∧ (BinOp.ofName? u.op).any (·.comm) = true) ∧
+               (st.stack.take u.inp.length).map (resolve S) = (u.inp.map (resolve S)).reverse))
     (hfresh : id ∉ st.done) (pk : Nat) :
     ∃ i σ1, instrOfU u = some i ∧ step e i σ = some σ1 ∧
       RInv e σ₀ S { stack := (match u.out with
@@ -491,7 +494,7 @@ theorem eff_sim (S : Spec) (hok : realOk S = true) (st : RunSt) (σ : St) (id : 
     | false => rfl
     | true => simp [instrOk, hcm, he] at hi
   have hdirect : (st.stack.take u.inp.length).map (resolve S) = u.inp.map (resolve S) := by
-    rcases hargs with h | ⟨h, _⟩
+    rcases hargs with h | ⟨⟨h, _⟩, _⟩
     · exact h
     · rw [hnc] at h; cases h
   have heff : effOf S u ≠ .skip ∧ (u.isStore = true → u.out = none) := by
@@ -806,9 +809,10 @@ theorem stepId_sim (S : Spec) (hok : realOk S = true) (st st1 : RunSt) (σ : St)
         · simp at hstep
         · cases hstep
           have hargs' : (st.stack.take u.inp.length).map (resolve S) = u.inp.map (resolve S) ∨
-              (u.comm = true ∧ (st.stack.take u.inp.length).map (resolve S) = (u.inp.map (resolve S)).reverse) := by
+              ((u.comm = true ∧ (BinOp.ofName? u.op).any (·.comm) = true) ∧
+                (st.stack.take u.inp.length).map (resolve S) = (u.inp.map (resolve S)).reverse) := by
             cases hb : ((st.stack.take u.inp.length).map (resolve S) == u.inp.map (resolve S) ||
-                u.comm && (st.stack.take u.inp.length).map (resolve S) == (u.inp.map (resolve S)).reverse) with
+                (u.comm && (BinOp.ofName? u.op).any (·.comm)) && (st.stack.take u.inp.length).map (resolve S) == (u.inp.map (resolve S)).reverse) with
             | false => rw [hb] at hargs; simp at hargs
             | true =>
               simp only [Bool.or_eq_true, Bool.and_eq_true, beq_iff_eq] at hb
